@@ -121,6 +121,7 @@ func Check(id string, cond bool, devs ...Dev) {
 	fmt.Fprintf(out, "ZZCHECK id=%s ok=%v devs=%s\n", id, cond, strings.Join(m, ","))
 }
 
+func SchedulesDone()    {}
 func Cover(tag string) { fmt.Fprintf(out, "ZZCOVER %s\n", tag) }
 func Note(s string)    { fmt.Fprintf(out, "ZZNOTE %s\n", s) }
 
